@@ -247,7 +247,38 @@ func RunPipeline(seed int64, tier, driver, outDir string, n int, search bool, co
 			res.Failures = append(res.Failures, core.FailRec{Prop: "C18", Finding: fid, Msg: msg, File: file})
 		}
 	}
-	res.Extra = map[string]any{"forked_deliveries": forked, "sync_deliveries": synced, "flat_skipped": skipped}
+	// several bindings on one source; a real network machine as the target (ground truth, search)
+	nm, nn := 60, 8
+	if tier == "thorough" {
+		nm, nn = 1500, 150
+	}
+	if search {
+		nm, nn = nm*3, nn*3
+	}
+	seenM := map[string]bool{}
+	for i := 0; i < nm+nn; i++ {
+		var fails []string
+		var line string
+		if i < nm {
+			fails, line = MultiBindScenario(seed*1000003 + int64(i))
+		} else {
+			fails, line = NetmachScenario(seed*1000003 + int64(i))
+		}
+		for _, f := range fails {
+			k := strings.SplitN(f, ":", 2)[0]
+			if seenM[k] {
+				continue
+			}
+			seenM[k] = true
+			file := filepath.Join(outDir, fmt.Sprintf("C18-seed%d-multi%d.mcase", seed, len(res.Failures)))
+			os.WriteFile(file, []byte("# "+f+"\n"+line+"\n"), 0o644)
+			res.Failures = append(res.Failures, core.FailRec{Prop: "C18", Msg: f + " [" + line + "]", File: file})
+		}
+	}
+	res.Evaluations += Multi.Steps + Multi.NetOverlaps
+	res.Extra = map[string]any{"forked_deliveries": forked, "sync_deliveries": synced, "flat_skipped": skipped,
+		"multi_binding_scenarios": Multi.Scenarios, "multi_binding_steps": Multi.Steps, "netmach_target_scenarios": Multi.NetScenarios,
+		"netmach_overlapping_toggles": Multi.NetOverlaps}
 	res.WallS = time.Since(t0).Seconds()
 	return res
 }
